@@ -1,0 +1,12 @@
+//go:build verif
+
+package tq
+
+// VerifHook, when set, receives one event per linearization point.
+var VerifHook func(ev, oid string, n int)
+
+func verifEv(ev, oid string, n int) {
+	if h := VerifHook; h != nil {
+		h(ev, oid, n)
+	}
+}
